@@ -293,6 +293,13 @@ Proof.
   - destruct H3 as [-> | ->]; [simpl; lia | rewrite repeat_length; lia].
 Qed.
 
+(* ------------------------------------------------------------------ the duration setting plays no role
+   `lib_export` is defined with the environment env0; as constructed the circuit, hence its export, is the same for every
+   duration setting (LibBuild_run_prog_env_indep) *)
+Theorem lib_export_env_indep : forall env D init anc cycles,
+  export_nodes_c09 (run_prog env (rep_code_prog D init anc cycles)) = lib_export_opt D init anc cycles.
+Proof. intros env D init anc cycles. unfold lib_export_opt, lib_circuit. now rewrite (run_prog_env_indep env env0). Qed.
+
 (* ------------------------------------------------------------------ non-vacuity *)
 (* distance 3, refocusing, data 1 0 1, ancillas 1 1, five cycles: the exporter returns a circuit with two REPEAT 2 blocks;
    133 instructions in normal form, 12 detectors, 3 observable includes, and the skeleton is NOT the whole program *)
